@@ -117,6 +117,11 @@ package cmd
 //@         && filePath == pathlib.NewPath(*ifaceConfig.Dir).Join(*ifaceConfig.FileName).Clean().Clean()
 //@   site#selected Append: shouldGenerate && lastErr("ShouldGenerateInterface") == nil && lastErr("ParseTemplates") == nil
 //@   site#entry NewInterface: $0 == iface.Name && $1 == iface.FileName && $2 == iface.File && $3 == iface.Pkg && $4 == ifaceConfig
+// The more specific level wins (C08) also where the effective values are consumed: a file is generated
+// with the template of the mocks collected for it. NOT satisfied by the code (known finding D7): the
+// generator is built from the package-level template (and template-schema, require-template-schema-exists,
+// force-file-write), so "template: matryer" on one interface renders that interface with the package's template.
+//@   site#template[C08] NewTemplateGenerator: $3 == interfacesInFile.template
 //@   exits_if foundMissing
 //@   returns#nomissing result == nil ==> !foundMissing
 //@   returns#missing result == nil ==> (forall p string, k string :: (p in missingMap) ==> !(k in missingMap[p]))
